@@ -29,6 +29,8 @@ import (
 type statFile struct {
 	Label string // non-empty: passed as label=path
 	Text  string
+	// twoSp (generation only): the scaled spelling of a metric this file writes in two spellings
+	twoSp string
 }
 
 type statCase struct {
@@ -512,7 +514,9 @@ func genStatFile(t *rapid.T, scale float64, constant bool, baseOff int, many, co
 	if vcase.OneIn(t, 8, "twospellings") {
 		// one metric written in a scaled unit on some lines and in its base unit on others,
 		// where the base unit still contains a scalable component in the denominator
-		units = append(units, rapid.SampledFrom([]string{"ns/MB|sec/MB", "MB/ns|B/ns", "ns/ns|sec/ns"}).Draw(t, "twosp"))
+		tw := rapid.SampledFrom([]string{"ns/MB|sec/MB", "MB/ns|B/ns", "ns/ns|sec/ns", "MB/s|B/s", "ns/frame|sec/frame"}).Draw(t, "twosp")
+		units = append(units, tw)
+		f.twoSp = tw[:strings.Index(tw, "|")]
 	}
 	// some lines carry a second measurement in a unit they already have (another spelling of the
 	// same unit included): both belong to the cell
@@ -572,6 +576,13 @@ func genStatFile(t *rapid.T, scale float64, constant bool, baseOff int, many, co
 								val /= 1e6
 							}
 						}
+					}
+					if vcase.OneIn(t, 60, "oddspelling") {
+						// spellings that leave the number parser's fast paths: exact ties between two
+						// floats, values rounding up to a power of two, 17 and more digits, a capital E
+						fmt.Fprintf(&sb, " %s %s", rapid.SampledFrom([]string{"4503599627370496.5", "9007199254740993.0", "4503599627370497.5", "1.2345678901234567E+02", "3.9999999999999999999", "0.99999999999999999",
+							"1.00000000000000011102230246251565404236316680908203125", "1.2345678901234567890123E5", "1023.99999999999999999", "2.5E-30", "12345678901234567890"}).Draw(t, "oddsp"), u)
+						continue
 					}
 					if vcase.OneIn(t, 80, "int64edge") {
 						// plain integers around 2^63, where an integer fast path has to give up
@@ -702,6 +713,18 @@ func genStatCase(t *rapid.T) statCase {
 	if vcase.OneIn(t, 3, "filter") {
 		c.Filter = genStatFilter(t, 2)
 		c.FilterText = refexpr.Print(t, c.Filter)
+	}
+	for _, f := range c.Files {
+		if f.twoSp != "" && rapid.Bool().Draw(t, "filtertwosp") {
+			// a filter naming the scaled spelling of a metric that the input writes in both
+			// spellings: every measurement of the metric passes, however it was written
+			c.Filter = &refexpr.Node{Op: "match", Key: ".unit", Vals: []refexpr.Term{{Lit: f.twoSp}}}
+			if rapid.Bool().Draw(t, "filtertwospor") {
+				c.Filter = &refexpr.Node{Op: "or", Kids: []*refexpr.Node{c.Filter, {Op: "match", Key: ".unit", Vals: []refexpr.Term{{Lit: "B/op"}}}}}
+			}
+			c.FilterText = refexpr.Print(t, c.Filter)
+			break
+		}
 	}
 	if vcase.OneIn(t, 4, "alpha") {
 		c.Alpha = rapid.SampledFrom([]float64{0.001, 0.01, 0.1, 0.5, 1, -1}).Draw(t, "alphav")
